@@ -102,7 +102,7 @@ Proof. intros. apply st_under_prefix. exists (parts fn). reflexivity. Qed.
 
 Section WithOS.
   Variable resolve : path -> option path.
-  Variable is_dir is_file : path -> bool.
+  Variable is_dir is_file : path -> option bool.
 
   Notation visit := (visit resolve is_dir is_file).
   Notation loop := (loop resolve is_dir is_file).
@@ -112,17 +112,18 @@ Section WithOS.
      root and that is a regular file *)
   Lemma st_visit_break : forall d fn p,
     visit d fn = IBreak p ->
-    under d p = true /\ is_file p = true /\ exists q, resolve q = Some p.
+    under d p = true /\ is_file p = Some true /\ exists q, resolve q = Some p.
   Proof.
     intros d fn p. unfold Static.visit.
     destruct (resolve (join d fn)) as [ffn|] eqn:R1; [|discriminate].
-    destruct (under d ffn && is_dir ffn) eqn:B.
+    destruct (if under d ffn then is_dir ffn else Some false) as [[|]|] eqn:B;
+      [| |discriminate].
     - destruct (resolve (ffn ++ [INDEX])) as [f2|] eqn:R2; [|discriminate].
       destruct (under d f2) eqn:U; cbn; [|discriminate].
-      destruct (is_file f2) eqn:F; [|discriminate].
+      destruct (is_file f2) as [[|]|] eqn:F; try discriminate.
       intro H. inversion H; subst. repeat split; try assumption. eauto.
     - destruct (under d ffn) eqn:U; cbn; [|discriminate].
-      destruct (is_file ffn) eqn:F; [|discriminate].
+      destruct (is_file ffn) as [[|]|] eqn:F; try discriminate.
       intro H. inversion H; subst. repeat split; try assumption. eauto.
   Qed.
 
@@ -159,7 +160,7 @@ Section WithOS.
   Theorem st_contained : forall fn fe bd p,
     static fn fe bd = Served p ->
     exists d, (resolve fe = Some d \/ resolve bd = Some d) /\
-              under d p = true /\ is_file p = true /\
+              under d p = true /\ is_file p = Some true /\
               exists q, resolve q = Some p.
   Proof.
     intros fn fe bd p. unfold Static.static.
@@ -192,15 +193,15 @@ Section WithOS.
      nothing under that name ---- *)
   Lemma st_visit_file : forall d fn p,
     resolve (join d fn) = Some p -> under d p = true ->
-    is_dir p = false -> is_file p = true -> visit d fn = IBreak p.
+    is_dir p = Some false -> is_file p = Some true -> visit d fn = IBreak p.
   Proof.
     intros d fn p R U D F. unfold Static.visit. rewrite R, U, D. cbn. rewrite U, F.
     reflexivity.
   Qed.
 
   Lemma st_visit_index : forall d fn p q,
-    resolve (join d fn) = Some p -> under d p = true -> is_dir p = true ->
-    resolve (p ++ [INDEX]) = Some q -> under d q = true -> is_file q = true ->
+    resolve (join d fn) = Some p -> under d p = true -> is_dir p = Some true ->
+    resolve (p ++ [INDEX]) = Some q -> under d q = true -> is_file q = Some true ->
     visit d fn = IBreak q.
   Proof.
     intros d fn p q R U D R2 U2 F. unfold Static.visit. rewrite R, U, D. cbn.
@@ -210,7 +211,7 @@ Section WithOS.
   Theorem st_serves_first : forall fn fe bd d1 d2 p,
     resolve fe = Some d1 -> resolve bd = Some d2 ->
     resolve (join d1 (lstrip_slash fn)) = Some p -> under d1 p = true ->
-    is_dir p = false -> is_file p = true ->
+    is_dir p = Some false -> is_file p = Some true ->
     static fn fe bd = Served p.
   Proof.
     intros fn fe bd d1 d2 p R1 R2 R U D F. unfold Static.static. rewrite R1, R2.
@@ -220,17 +221,18 @@ Section WithOS.
   Theorem st_serves_second : forall fn fe bd d1 d2 p1 p,
     resolve fe = Some d1 -> resolve bd = Some d2 ->
     resolve (join d1 (lstrip_slash fn)) = Some p1 ->
-    is_dir p1 = false -> is_file p1 = false ->
+    is_dir p1 = Some false -> is_file p1 = Some false ->
     resolve (join d2 (lstrip_slash fn)) = Some p -> under d2 p = true ->
-    is_dir p = false -> is_file p = true ->
+    is_dir p = Some false -> is_file p = Some true ->
     static fn fe bd = Served p.
   Proof.
     intros fn fe bd d1 d2 p1 p R1 R2 Ra Da Fa R U D F. unfold Static.static.
     rewrite R1, R2.
     assert (V1 : visit d1 (lstrip_slash fn) = IContinue \/
                  visit d1 (lstrip_slash fn) = INext p1).
-    { unfold Static.visit. rewrite Ra, Da, andb_false_r.
-      destruct (under d1 p1); cbn; [right; rewrite Fa|left]; reflexivity. }
+    { unfold Static.visit. rewrite Ra.
+      destruct (under d1 p1) eqn:U1; cbn; [rewrite Da, U1; cbn; right; rewrite Fa|
+                                           rewrite U1; left]; reflexivity. }
     destruct V1 as [V1|V1]; cbn; rewrite V1; cbn;
       rewrite (st_visit_file d2 _ p R U D F); reflexivity.
   Qed.
